@@ -6,12 +6,15 @@ import (
 	"context"
 	"fmt"
 	"log/slog"
+	"net/netip"
 	"time"
 
+	"github.com/scionproto/scion/pkg/slayers"
 	"github.com/scionproto/scion/pkg/snet"
 
 	"example.com/scion-time/core/client"
 	"example.com/scion-time/net/ntp"
+	"example.com/scion-time/net/scion"
 
 	"verif.local/sim/simcore"
 	"verif.local/sim/simnet"
@@ -63,10 +66,45 @@ func c03SCIONWorld(r *simcore.Run) any {
 	laddr, raddr := w.udpAddrs()
 	sent := map[uint64]*simnet.Datagram{}
 	reqOf := map[*simnet.UDPConn]*simnet.Datagram{}
+	// through the forwarder: its kernel receive timestamp goes missing now and then (no
+	// timestamp option on that packet: the client's own receive timestamp counts), and a
+	// reply of the previous exchange with a changed origin, re-addressed to the attempt's
+	// port, reaches the client ahead of the genuine reply (rejected; nothing of it may stick)
+	var fwdPlan simnet.FaultPlan
+	staleRate := uint64(0)
+	if forwarder {
+		fwdPlan = w.net.Plan
+		fwdPlan.RxStampMissing = uint64(tp.Intn(500, "fwd-rxmiss"))
+		staleRate = uint64(tp.Intn(400, "stale-via-fwd"))
+		w.net.PlanFor = func(d *simnet.Datagram, at *simnet.UDPConn) *simnet.FaultPlan {
+			if at != nil && at.Host() == w.cli && at.Local().Port() == scEndhost {
+				return &fwdPlan
+			}
+			return nil
+		}
+	}
+	var lastReply *simnet.Datagram
 	w.net.OnSend = func(d *simnet.Datagram) {
 		sent[d.ID] = d
+		if forwarder && d.SrcConn != nil && d.SrcConn == w.routers[0] && d.Dst.Port() == scEndhost && d.Dst.Addr().Unmap() == netip.MustParseAddr(scCliIP).Unmap() {
+			lastReply = d
+		}
 		if d.SrcConn != nil && d.SrcConn.Host() == w.cli && d.SrcConn.Local().Port() != scEndhost && reqOf[d.SrcConn] == nil {
 			reqOf[d.SrcConn] = d
+			if lastReply != nil && staleRate > 0 && tp.Bool(staleRate, 1000, "stale?") {
+				if lp := parseSCION(lastReply.Payload); lp.ok && lp.isUDP && len(lp.pld) >= 48 {
+					port := d.SrcConn.Local().Port()
+					pl := scRebuild(lp, func(s *slayers.SCION, u *slayers.UDP, pld *[]byte) {
+						u.DstPort = port
+						(*pld)[24+tp.Intn(8, "ob")] ^= 1 << tp.Intn(8, "obit")
+					})
+					if pl != nil {
+						w.net.Inject(w.net.NewDatagram(lastReply.Src, lastReply.Dst, pl, "earlier reply, origin changed, re-addressed"),
+							time.Duration(tp.Range(1000, int64(plan.MinLatency)+2000, "stale-delay")))
+						r.Fault("unusable-reply-via-forwarder")
+					}
+				}
+			}
 		}
 	}
 	// origin follows a datagram back to the first datagram of its chain that was sent by host h
@@ -131,8 +169,16 @@ func c03SCIONWorld(r *simcore.Run) any {
 		// where was the client's receive timestamp taken: at the forwarder, or at its own socket
 		t3 := last.ArrivedAt
 		if forwarder {
-			if c := w.net.Delivered(last.Cause); c != nil {
+			stamped := false
+			if fp := parseSCION(last.Payload); fp.hasE2E {
+				for _, o := range fp.e2e.Options {
+					stamped = stamped || o.OptType == scion.OptTypeTimestamp
+				}
+			}
+			if c := w.net.Delivered(last.Cause); c != nil && stamped {
 				t3 = c.ArrivedAt // the forwarder's socket
+			} else {
+				r.Probe("forwarded-without-timestamp")
 			}
 		}
 		cur := &exch{q: q, qAtSrv: qAtSrv, pSrv: pSrv, t3: t3}
